@@ -26,7 +26,7 @@ FUNCTIONS = ["CursorAwareWindow.__enter__", "CursorAwareWindow.render_to_termina
 BOUNDS = ("initial screen: marker lines above the cursor, in half of the instances also old output on the cursor's row and below; " +
           "terminal sizes (2,2), (3,2) quick; + (3,3), (4,2) thorough; 0 or 2 lines already in the scrollback, cursor on any screen "
           "row r0 with marker lines above it; first array from a reduced set (8), second array: quick a seeded sample of 10 (+ all "
-          "arrays of height <= 1), thorough all; heights 0..h+2, rows of length 0..w (str / 1-run / 2-run); every row character "
+          "arrays of height <= 1), thorough a seeded sample of 40; heights 0..h+2, rows of length 0..w (str / 1-run / 2-run); every row character "
           "symbolic; cursor target: first visible / last array row (symbolic choice) at a column fixed per instance; keep_last_line and hide_cursor both")
 STUBS = ["terminal model with scrollback as output device and as the source of the cursor report (DSR 6) read from in_stream; rows "
          "handed over as FmtStr through fmtstr_to_stdout_xform() (assumes C01)", "curtsies.window.Cbreak replaced by a no-op "
@@ -83,7 +83,7 @@ def instances(tier, seed):
                         out.append({"name": "hist-%dx%d-r%d-sb%d-A%d-o%d" % (h, w, r0, sb, ai, o), "fn": "history", "timeout": T, "cost": h,
                                     "params": {"h": h, "w": w, "r0": r0, "sb": sb, "A": ai, "keep": bool(o & 1), "hide": bool(o & 2),
                                                "cc": (ai + r0) % w, "below": (ai + r0 + sb // 2) % 2 == 1,
-                                               "seed": seed, "limit": (10 if h == 2 else 4) if tier == "quick" else 100000}})
+                                               "seed": seed, "limit": (10 if h == 2 else 4) if tier == "quick" else 40}})
     return out
 
 
